@@ -8,7 +8,7 @@ TB = ("Trusted: Lean 4.33 kernel (axioms propext, Classical.choice, Quot.sound o
 
 CLAIMS = {
  "C01": dict(
-  technique="Lean 4 proof: ladder invariant by induction over the bit list on the regenerated complete add/double formulas at the proved limb-level field; correspondence for the API glue",
+  technique="Lean 4 proof: ladder invariant by induction over the bit list on the regenerated complete add/double formulas at the proved limb-level field; Multiply itself regenerated from element.go and proved equal to the model; correspondence against the real code",
   text="Kernel-checked (C01, C01_ladder, C01_full, C01_nil): for every valid projective triple P in any representation and every canonical scalar k, "
        "the model of Multiply returns a valid point equal to (value of k) • P in Mathlib's elliptic-curve group over ZMod p; nil scalar gives the identity. "
        "The premises about Bits and IsOne are the proved C14/C13 theorems; the formulas and FromMontgomery are regenerated from the source on every run.",
@@ -22,13 +22,13 @@ CLAIMS = {
   note=TB + "The API methods Add/Double/Negate/Subtract (nil handling, the copy inside Subtract, both aliasing patterns) are regenerated with their callees inlined and tied to the model by rfl; "
        "additionally compared by the grouplaw family on raw triples incl. Z not in {0,1}, (0:Y:0), P=+-Q."),
  "C03": dict(
-  technique="Lean 4 proof: limb-level decoder models refine an executable SEC1 acceptance specification (Reduce borrow chain, ToMontgomery, SqrtRatio chain proved); correspondence for length/prefix logic",
+  technique="Lean 4 proof: limb-level decoder models refine an executable SEC1 acceptance specification (Reduce borrow chain, ToMontgomery, SqrtRatio chain proved); the decoders and their wrappers regenerated from element.go and proved equal to the model; correspondence against the real code",
   text="Kernel-checked (decode_spec, decode_accepts_iff and one theorem per decoder): for every receiver and every byte string the decoder accepts iff the SEC1 specification does "
        "(00; 02/03||x with x<p and x^3+7 square; 04||x||y canonical and on the curve; nothing else), returns the specified point as a valid element, and on rejection returns "
        "invalidPointEncoding with the receiver unchanged.",
   note=TB + "The four point decoders (length switch, prefix and parity logic, early returns with the receiver as it is at that point) are regenerated and proved equal to the model; DecodeHex/UnmarshalBinary wrappers and the 32-byte parser are hand models tied by the decode family (all 256 prefixes, lengths 0..70, x>=p aliases, y+p aliases, hybrid prefixes, wrong parity, off-curve)."),
  "C04": dict(
-  technique="Lean 4 proof: encoders of any projective representation equal the SEC1 encoding of the abstract point; round trips by composition with the C03 theorem",
+  technique="Lean 4 proof: encoders of any projective representation equal the SEC1 encoding of the abstract point; round trips by composition with the C03 theorem; encoders, wrappers and Base regenerated and proved equal to the model",
   text="Kernel-checked: Encode/EncodeUncompressed are the SEC1 compressed/uncompressed forms of the abstract point (00 for the identity) for every valid triple, hence identical for all "
        "representations of a group element; Decode(Encode(P)) and Decode(EncodeUncompressed(P)) succeed and give the same group element; XCoordinate is a view of Encode.",
   note=TB + "Encode/EncodeUncompressed/XCoordinate are regenerated (byte array, constant-time select/copy, append) and proved equal to the model; Hex/MarshalBinary wrappers and Bytes() are hand models tied by the enc and roundtrip families (re-scaled representations, every identity representation, points with x just below p)."),
@@ -37,27 +37,27 @@ CLAIMS = {
   text="Kernel-checked: Equal returns 1 iff the operands are the same element of Mathlib's group, else 0, is symmetric, and IsIdentity holds exactly for the identity, for all valid projective triples.",
   note=TB + "Equal (both aliasing patterns) and IsIdentity are regenerated and tied by rfl. eq family: re-scaled pairs (incl. sparse-Montgomery scalings), P/-P, endomorphism pairs sharing y, line mates (x1+y1=x2+y2), identity representations."),
  "C06": dict(
-  technique="Lean 4 proof: generated Fiat scalar functions = structured Montgomery reference by rfl, reference correct for any valid modulus; chain exponent evaluated in the kernel; Fermat",
+  technique="Lean 4 proof: generated Fiat scalar functions = structured Montgomery reference by rfl, reference correct for any valid modulus; chain exponent evaluated in the kernel; Fermat; every method of scalar.go (Pow, Invert included) regenerated and proved equal to the model",
   text="Kernel-checked over canonical limbs and ZMod n: Add, Subtract, Multiply, Square exact and canonical (aliasing is sound: the translator refuses reads after the first output write); "
        "Invert = x^-1 (0 -> 0) through the regenerated 293-step chain; SetUInt64 for every 64-bit value; Zero/One/MinusOne; nil conventions; Pow = s^t.",
   note=TB + "Pow goes through math/big, modelled as exact modular powering (assumed). The methods Zero/One/MinusOne/Add/Subtract/Multiply/Square/Set/SetUInt64/IsZero/IsOne of scalar.go are regenerated (nil as none) and tied by rfl; "
        "Pow (math/big modelled: SetBytes, Exp, Bytes), Invert (through scalar.Invert and the regenerated chain), Set and Copy are regenerated too and proved equal to the model (pow_regenerated, "
        "invert_regenerated); the scarith/sfarith families (boundary x boundary prefix) run the real code."),
  "C07": dict(
-  technique="Lean 4 proof: scalar Encode/Decode refine big-endian integers below n (Reduce borrow chain and Montgomery conversions proved)",
+  technique="Lean 4 proof: scalar Encode/Decode refine big-endian integers below n (Reduce borrow chain and Montgomery conversions proved); codec and byte-level functions regenerated and proved equal to the model",
   text="Kernel-checked: Encode is the 32-byte big-endian canonical value; Decode accepts exactly 32-byte strings below n and stores that integer, rejects the empty input, other lengths and values >= n "
        "with their distinct errors; both round trips; hex variants agree.",
   note=TB + "Encode/Decode/Hex/DecodeHex/MarshalBinary/UnmarshalBinary and the byte-level functions of internal/scalar are regenerated on every run (byte-slice mode) and proved equal to the model "
        "(codec_regenerated, byte_functions_regenerated, regenerated_roundtrip); encoding/hex and encoding/binary are modelled; the scenc/sfenc families (window around n, all lengths 0..70) run the real code."),
  "C08": dict(
-  technique="Lean 4 proof: refinement of the expander, wide reduction, regenerated SSWU and isogeny, and complete addition to an independent RFC 9380 specification, for every hash with 32-byte output",
+  technique="Lean 4 proof: refinement of the expander, wide reduction, regenerated SSWU and isogeny, and complete addition to an independent RFC 9380 specification, for every hash with 32-byte output; xmd.go and group.go regenerated (Option monad, checked alias classes) and proved equal to the model",
   text="Kernel-checked for every hash function H with 32-byte output, every message, every non-empty DST of any length: HashToGroup/EncodeToGroup return a valid element whose abstract point is "
        "hash_to_curve/encode_to_curve of RFC 9380 (expand_message_xmd incl. the oversize rule, hash_to_field, textbook SSWU, E.1 isogeny, addition in the group); an empty DST panics.",
   note=TB + "SHA-256 is a parameter of the theorems (the driver's Lean SHA-256 is sampled against crypto/sha256). xmd.go and the three compositions of group.go are regenerated by go2lean on every run (byte-slice mode: Option monad, loops, bounds checks, alias classes checked) "
        "and proved equal to the model (expander_regenerated, hashToGroup_regenerated, encodeToGroup_regenerated); the wide reduction's byte parsing is a hand model tied by the fh2f family; the xmd, h2c and chosenu "
        "families run the real function bodies (the latter on chosen expander outputs)."),
  "C09": dict(
-  technique="Lean 4 proof: HashToScalar refines OS2IP(expand_message_xmd) mod n; 48-byte wide reduction proved for all inputs",
+  technique="Lean 4 proof: HashToScalar refines OS2IP(expand_message_xmd) mod n; 48-byte wide reduction proved for all inputs; expander, HashToScalar and the wide reduction regenerated and proved equal to the model",
   text="Kernel-checked for every hash with 32-byte output: HashToScalar returns the canonical scalar OS2IP(expand_message_xmd(msg, DST, 48)) mod n; the wide reduction is exact on all 2^384 inputs; empty DST panics.",
   note=TB + "Same hash assumption as C08; expandXMD and HashToScalar are regenerated on every run and proved equal to the model (expander_regenerated, hashToScalar_regenerated); "
        "the wide reduction's byte parsing is a hand model tied by the h2s and sfh2f families."),
@@ -84,7 +84,7 @@ CLAIMS = {
   text="Kernel-checked: Equal/IsZero/IsOne decide equality of canonical values; LessOrEqual is the integer order of the canonical values; CSelect returns u for cond = 0 and v for every non-zero 64-bit condition word; nil cases.",
   note=TB + "Equal/LessOrEqual/IsZero/IsOne/CSelect of scalar.go and scalar.CMove are regenerated and tied by rfl. cmp/sfcmp families (condition words 0,1,2,3,2^32,2^63,2^64-1,random; raw-limb patterns; receiver aliasing either operand)."),
  "C14": dict(
-  technique="Lean 4 proof: Bits = binary expansion of the canonical value, over the regenerated loop header/body and FromMontgomery",
+  technique="Lean 4 proof: Bits = binary expansion of the canonical value, over Bits regenerated statement by statement and the regenerated FromMontgomery",
   text="Kernel-checked: Bits returns exactly 256 entries, entry i is bit i of the canonical value, and their weighted sum is the value; the loop bound and body are read from the source on every run.",
   note=TB + "Bits is regenerated statement by statement on every run (range-over-int loop, computed limb index, store) and proved equal to the model (bits_regenerated); bits family (bit 255 set, powers of two, k*2^64, n-1) runs the real code."),
  "C15": dict(
@@ -107,7 +107,7 @@ CLAIMS = {
        "package's own import closure under every build-tag configuration; a plain main importing only the package is built and run per tag and its outputs compared with the executable RFC specification.",
   note=TB + "Partial: the Go linker and package initialisation order are modelled (linked set = import closure; a hash is registered iff its implementing package is linked), not verified; the minimal-main run per build tag is the correspondence."),
  "C18": dict(
-  technique="Lean 4 proof over a byte-stream model of Random (rejection loop, Reduce, ToMontgomery proved) + correspondence with a scripted entropy source",
+  technique="Lean 4 proof over a byte-stream model of Random (rejection loop, Reduce, ToMontgomery proved); Random regenerated (explicit iteration bound, entropy stream as a parameter) and proved equal to the model for every stream + correspondence with a scripted entropy source",
   text="Kernel-checked: for every byte stream Random returns the first 32-byte block whose value mod n is non-zero, reduced and canonical, never zero, and panics exactly when the stream ends before such a block; one conditional subtraction suffices.",
   note=TB + "Random is regenerated on every run (for-cond loop with an explicit iteration bound, crypto/rand.Reader as a hidden stream parameter, io.ReadFull modelled) and proved to return what the model "
        "returns for every stream and every sufficient bound (random_regenerated); the rnd family (blocks 0, n, n+k, 2^256-1, short reads, early EOF) runs the real code."),
